@@ -103,7 +103,7 @@ esl_wei_cdf(double x, double mu, double lambda, double tau)
   double tly = tau * log(y);
 
   if      (x <= mu)                return 0.0;
-  else if (fabs(tly) < eslSMALLX1) return exp(tly); 
+  else if (exp(tly)  < eslSMALLX1) return exp(tly);   /* 1-e^-z ~ z for small z = y^tau */
   else                             return 1 - exp(-exp(tly));
 }
 
@@ -121,7 +121,7 @@ esl_wei_logcdf(double x, double mu, double lambda, double tau)
 
   if (x <= mu) return -eslINFINITY;
 
-  if      (fabs(tly) < eslSMALLX1)              return tly;
+  if      (exp(tly)  < eslSMALLX1)              return tly; /* 1-e^-z ~ z for small z = y^tau; log z = tly */
   else if (fabs(exp(-exp(tly))) < eslSMALLX1)   return -exp(-exp(tly)); 
   else                                          return log(1 - exp(-exp(tly)));
 }
